@@ -11,6 +11,9 @@ mod c01;
 mod c03;
 mod c04;
 mod c07;
+mod c09;
+mod c11;
+mod c12;
 mod common;
 
 pub struct Ctx {
@@ -67,6 +70,9 @@ fn main() {
         "C03" => c03::run(&ctx),
         "C04" => c04::run(&ctx),
         "C07" => c07::run(&ctx),
+        "C09" => c09::run(&ctx),
+        "C11" => c11::run(&ctx),
+        "C12" => c12::run(&ctx),
         _ => {
             eprintln!("unknown check {}", id);
             2
